@@ -2,7 +2,7 @@
 splitters and combiners hold one unit of work for exactly their processing delay."""
 from ..common import Result
 from ..harness_factory import FactoryRun, FOracle
-from ..fanalysis import NodeBook, counts
+from ..fanalysis import NodeBook, counts, edge_room
 from .. import gen_factory
 
 PROP = "C08"
@@ -189,6 +189,14 @@ class ProcessingOracle(FOracle):
                 self.v(nid, (kind, "late_push", "granted_unused"),
                        "%s: space request on %s granted at %s is still unused at the end of instant %s" % (
                            nid, unused[0].edge, unused[0].t_grant, now))
+                continue
+            stuck = [t for t in live if t.state == "pending" and f.edge_spec[t.edge]["kind"] in ("Buffer", "Fleet")
+                     and edge_room(f, t.edge) > 0]
+            if stuck:
+                # "leaves later only while every permitted out-edge is unable to accept it"
+                self.v(nid, (kind, "late_push", "room"),
+                       "%s holds a finished item and waits for %s (request of t=%s) although that edge has room for %d at the end of instant %s" % (
+                           nid, stuck[0].edge, stuck[0].t_issue, edge_room(f, stuck[0].edge), now))
                 continue
             P = len(set(id(t.proc) for t in live))
             if kind == "Machine":
